@@ -30,7 +30,7 @@ use crate::core::exec::{now_step, Exec, NodePanic, Policy, Scheduler};
 use crate::core::log::EventLog;
 use crate::core::rng::Rng;
 
-use super::pipe::{sim_duplex, PipeEnd, PipeStats};
+use super::pipe::{sim_duplex, PipeEnd, PipeHandle, PipeStats};
 use super::scenario::*;
 
 /// An envelope as the oracles see it.
@@ -590,14 +590,58 @@ pub fn parse_frame(text: &str) -> Result<Env, String> {
     }
 }
 
-async fn peer_writer(ops: Vec<PeerOp>, mut tx: ratchet::Sender<PipeEnd, NoExtEncoder>, hist: SharedHist) {
+/// One web socket frame written by hand (RFC 6455): clients mask their payload.
+fn raw_frame(fin: bool, opcode: u8, payload: &[u8], mask: bool) -> Vec<u8> {
+    let mut f = vec![(if fin { 0x80 } else { 0 }) | opcode];
+    let m = if mask { 0x80u8 } else { 0 };
+    if payload.len() < 126 {
+        f.push(m | payload.len() as u8);
+    } else if payload.len() <= u16::MAX as usize {
+        f.push(m | 126);
+        f.extend_from_slice(&(payload.len() as u16).to_be_bytes());
+    } else {
+        f.push(m | 127);
+        f.extend_from_slice(&(payload.len() as u64).to_be_bytes());
+    }
+    if mask {
+        let key = [0x11u8, 0x22, 0x33, 0x44];
+        f.extend_from_slice(&key);
+        f.extend(payload.iter().enumerate().map(|(i, b)| b ^ key[i % 4]));
+    } else {
+        f.extend_from_slice(payload);
+    }
+    f
+}
+
+async fn peer_writer(ops: Vec<PeerOp>, mut tx: ratchet::Sender<PipeEnd, NoExtEncoder>, hist: SharedHist, pipe: PipeHandle, out_dir: usize, is_client: bool) {
     for (idx, op) in ops.iter().enumerate() {
         let start = now_step();
         match op {
             PeerOp::Pause(n) => yield_n(*n).await,
             PeerOp::Env { kind, node, lane, body, style } => {
                 let text = peer_text(*kind, node, lane, body, *style);
-                let ok = tx.write_text(&text).await.is_ok();
+                let ok = if *style & 64 != 0 && text.len() >= 2 {
+                    // The envelope as two fragments (a text frame without FIN and a continuation frame), optionally
+                    // with a ping between them, which the protocol allows. Written by hand in one piece.
+                    let mut cut = ((text.len() as u64 * ((*style >> 8) & 0xff) as u64) / 256).clamp(1, text.len() as u64 - 1) as usize;
+                    while !text.is_char_boundary(cut) {
+                        cut -= 1;
+                    }
+                    if cut == 0 {
+                        tx.write_text(&text).await.is_ok()
+                    } else {
+                        let _ = tx.flush().await;
+                        let mut bytes = raw_frame(false, 0x1, &text.as_bytes()[..cut], is_client);
+                        if *style & 128 != 0 {
+                            bytes.extend(raw_frame(true, 0x9, b"mid", is_client));
+                        }
+                        bytes.extend(raw_frame(true, 0x0, &text.as_bytes()[cut..], is_client));
+                        hist.borrow_mut().marks.push((now_step(), format!("peer fragmented[{idx}] cut={cut} ping={}", *style & 128 != 0)));
+                        pipe.inject(out_dir, &bytes)
+                    }
+                } else {
+                    tx.write_text(&text).await.is_ok()
+                };
                 let env = Env { kind: *kind, node: node.clone(), lane: lane.clone(), body: expected_body(*kind, Some(body.as_str())) };
                 let mut h = hist.borrow_mut();
                 h.marks.push((now_step(), format!("peer text[{idx}] {:?}", text)));
@@ -804,7 +848,8 @@ pub async fn run(sc: &SockScenario) -> Record {
         let ws = WebSocket::from_upgraded(config, end, Some(NoExt), BytesMut::new(), role);
         match ws.split() {
             Ok((tx, rx)) => {
-                exec.spawn("peer.w", 64, peer_writer(sc.peer.clone(), tx, hist.clone()));
+                let out_dir = if sc.topo == Topo::PeerIsClient { 1 } else { 0 };
+                exec.spawn("peer.w", 64, peer_writer(sc.peer.clone(), tx, hist.clone(), pipe.clone(), out_dir, sc.topo == Topo::PeerIsClient));
                 exec.spawn("peer.r", 64, peer_reader(rx, sc.peer_read_stall, sc.pipe.seed ^ 0x77, hist.clone(), flags.clone()));
             }
             Err(_) => hist.borrow_mut().marks.push((0, "peer split failed".into())),
